@@ -818,7 +818,17 @@ impl World {
                 }
             }
         }
-        Sx::L(vec![Sx::n(rg), Sx::n(rb), Sx::n(pg), Sx::n(pb), Sx::n(pe)])
+        // anything created in the scratch directory OUTSIDE the cache directory and the working directory
+        let mut escaped = 0u64;
+        if let Ok(rd) = std::fs::read_dir(self.dir.path()) {
+            for e in rd.flatten() {
+                let n = e.file_name().to_string_lossy().into_owned();
+                if n != "w" && n != "cache" && n != "cache.saved" && n != "cached-config" {
+                    escaped += 1;
+                }
+            }
+        }
+        Sx::L(vec![Sx::n(rg), Sx::n(rb), Sx::n(pg), Sx::n(pb), Sx::n(pe), Sx::n(escaped)])
     }
 
     async fn stats(&self) -> Sx {
@@ -1119,6 +1129,45 @@ async fn run_case(case: &Sx, rt: tokio::runtime::Handle) -> Result<Sx, String> {
             "restart" => {
                 w.restart(step.arg(1).is_sym("ro")).await;
                 obs.push(Sx::L(vec![Sx::sym("restart"), w.disk(), w.stats().await]));
+            }
+            "ppforge" => {
+                // ( ppforge tu kind ): replace the unit's preprocessor-cache entry by a WELL-FORMED entry (written
+                // with the real PreprocessorCacheEntry::add_result / serialize_to) holding one result with an
+                // empty include list — which matches every lookup — and a result key that no compilation produced.
+                // The key comes out of an untrusted file: it may be empty, too short, not hexadecimal, contain
+                // path separators or "..".
+                let tu = step.arg(1).u64() as usize;
+                let kind = step.arg(2).str();
+                let key: String = match kind.as_str() {
+                    "empty" => "".into(),
+                    "len1" => "a".into(),
+                    "len2" => "ab".into(),
+                    "nonhex" => "this-is-not-a-digest".into(),
+                    "upper" => "A".repeat(64),
+                    "slash" => "ab/cd/ef".into(),
+                    "dotdot" => "../escaped-from-the-cache".into(),
+                    // an absolute path (inside the scratch directory, so that a tree that follows it is harmless)
+                    "abs" => format!("{}/escaped-absolute", w.dir.path().display()),
+                    "utf8" => "\u{e9}\u{e9}\u{e9}\u{e9}".into(),
+                    "short" => "ab".repeat(16),
+                    // a well-formed digest that simply is not in the cache
+                    _ => "a".repeat(64),
+                };
+                if w.cache.is_dir() {
+                    w.learn_from_disk();
+                    let k = w.keys.lock().unwrap().get(&tu).cloned().unwrap_or((None, None)).0;
+                    if let Some(k) = k {
+                        let path = pp_path(&w.cache, &k);
+                        if path.is_file() {
+                            let mut e = PreprocessorCacheEntry::new();
+                            e.add_result(std::time::SystemTime::now(), &key, Vec::<(String, PathBuf)>::new());
+                            let mut buf = vec![];
+                            e.serialize_to(&mut buf).unwrap();
+                            std::fs::write(&path, &buf).unwrap();
+                        }
+                    }
+                }
+                obs.push(Sx::L(vec![Sx::sym("ppforge"), w.disk()]));
             }
             "poke" => {
                 // ( poke tu off width ): overwrite `width` bytes at absolute offset `off mod len` of the stored
